@@ -93,43 +93,55 @@ pub fn parse_par_seq(text: &str) -> Result<Vec<Vec<Vec<String>>>, String> {
     Ok(stages)
 }
 
+/// What was captured of one builder just before it was consumed.
+struct Captured {
+    path: String,
+    /// `{:?}`, `{:#?}` and one spelling with width / precision / fill flags (their description too)
+    texts: Result<(String, String, String, &'static str), String>,
+    plan: Plan,
+    /// names handed to this builder by registration attempts that failed (and were caught)
+    ghosts: Vec<String>,
+}
+
 /// Registers the plan level by level and captures the Debug text of every builder just before it
 /// is consumed (inner builders: before `add_batch`; the top builder: before `build`).
-fn inst_capture(
-    plan: &Plan,
-    ctx: &Arc<Ctx>,
-    pool: &Pool,
-    path: String,
-    texts: &mut Vec<(String, Result<(String, String), String>, Plan)>,
-    failed_attempts: u64,
-) -> DispatcherBuilder<'static, 'static> {
+fn inst_capture(plan: &Plan, ctx: &Arc<Ctx>, pool: &Pool, path: String, texts: &mut Vec<Captured>, failed_attempts: u64, fmt_seed: u64) -> DispatcherBuilder<'static, 'static> {
     let mut b = DispatcherBuilder::new();
     #[cfg(feature = "parallel")]
     b.add_pool(pool.clone());
     let _ = pool;
+    let mut ghosts = Vec::new();
     for (idx, it) in plan.items.iter().enumerate() {
-        // now and then a registration attempt fails (unknown dependency / reused name), the caller
-        // catches the panic and carries on with the same builder: nothing was registered by it
-        if failed_attempts != 0 && mix(failed_attempts, idx as u64) % 5 == 0 {
-            let earlier: Vec<&str> = plan.items[..idx]
-                .iter()
-                .filter_map(|x| match x {
-                    Item::Sys(s) if !s.name.is_empty() => Some(s.name.as_str()),
-                    Item::Batch(bb) if !bb.name.is_empty() => Some(bb.name.as_str()),
-                    _ => None,
-                })
-                .collect();
-            let ghost = SysSpec { uid: 0, name: String::new(), deps: vec![], reads: vec![], writes: vec![], time: 3, kind: Kind::Dyn };
-            let r = if earlier.is_empty() || mix(failed_attempts, idx as u64 + 99) % 2 == 0 {
-                catch_unwind(AssertUnwindSafe(|| b.add(crate::sys::HSys::new(&ghost, ctx), "never registered", &["no such dependency"])))
-            } else {
-                let dup = earlier[(mix(failed_attempts, idx as u64 + 7) % earlier.len() as u64) as usize].to_string();
-                catch_unwind(AssertUnwindSafe(|| b.add(crate::sys::HSys::new(&ghost, ctx), &dup, &[])))
+        // now and then a registration attempt fails (unknown dependency / reused name / the
+        // system's own code panics while the builder inspects it), the caller catches the panic
+        // and carries on with the same builder: nothing was registered by it
+        let extra = failed_attempts != 0 && mix(failed_attempts, idx as u64) % 5 == 0;
+        let planned = if let Item::Failed(k) = it { Some(*k) } else { None };
+        if extra || planned.is_some() {
+            let kind = match planned {
+                Some(k) => k,
+                None => {
+                    let h = mix(failed_attempts, idx as u64 + 99);
+                    if h % 2 == 0 {
+                        (h >> 8) as u8 % 2
+                    } else {
+                        (2 + (h >> 8) as u8 % 4) | if (h >> 16) % 2 == 0 { FAILED_NAMED } else { 0 }
+                    }
+                }
             };
-            let _ = r;
+            crate::sys::failed_attempt(&mut b, &plan.items, idx, kind, ctx);
+            if kind & 15 >= 2 && kind & FAILED_NAMED != 0 {
+                ghosts.push(format!("ghost of attempt {}", idx));
+            }
+            if kind & 15 == 0 {
+                ghosts.push("never registered".to_string());
+            }
+            if planned.is_some() {
+                continue;
+            }
         }
         if let Item::Batch(bs) = it {
-            let inner = inst_capture(&bs.inner, ctx, pool, format!("{}/batch{}", path, bs.uid), texts, failed_attempts);
+            let inner = inst_capture(&bs.inner, ctx, pool, format!("{}/batch{}", path, bs.uid), texts, failed_attempts, fmt_seed);
             // re-use `register`'s logic for the controller by building the batch item by hand
             let deps: Vec<&str> = bs.deps.iter().map(|d| d.as_str()).collect();
             crate::sys::add_batch_item(&mut b, bs, inner, ctx, &deps);
@@ -137,12 +149,25 @@ fn inst_capture(
             register(&mut b, it, ctx, Some(pool));
         }
     }
-    let r = catch_unwind(AssertUnwindSafe(|| (format!("{:?}", b), format!("{:#?}", b))));
-    texts.push((path, r.map_err(|p| payload_str(&*p)), plan.clone()));
+    let variant = mix(fmt_seed, texts.len() as u64) % 8;
+    let r = catch_unwind(AssertUnwindSafe(|| {
+        let (fancy, how) = match variant {
+            0 => (format!("{:.7?}", b), "{:.7?}"),
+            1 => (format!("{:24?}", b), "{:24?}"),
+            2 => (format!("{:*>12?}", b), "{:*>12?}"),
+            3 => (format!("{:<40.3?}", b), "{:<40.3?}"),
+            4 => (format!("{:#.2?}", b), "{:#.2?}"),
+            5 => (format!("{:08?}", b), "{:08?}"),
+            6 => (format!("{:^1.0?}", b), "{:^1.0?}"),
+            _ => (format!("{:+#300?}", b), "{:+#300?}"),
+        };
+        (format!("{:?}", b), format!("{:#?}", b), fancy, how)
+    }));
+    texts.push(Captured { path, texts: r.map_err(|p| payload_str(&*p)), plan: plan.clone(), ghosts });
     b
 }
 
-fn compare(path: &str, plan: &Plan, layout: &Layout, text: &str, out: &mut Vec<(String, String)>) -> usize {
+fn compare(path: &str, plan: &Plan, ghosts: &[String], layout: &Layout, text: &str, out: &mut Vec<(String, String)>) -> usize {
     let parsed = match parse_par_seq(text) {
         Ok(p) => p,
         Err(e) => {
@@ -183,6 +208,16 @@ fn compare(path: &str, plan: &Plan, layout: &Layout, text: &str, out: &mut Vec<(
                             format!("{}: position (stage {}, group {}, pos {}) runs u{} named {:?} (sanitised {:?}) but the text shows {:?}", path, si, gi, pi, uid, nm, want, tok),
                         ));
                     }
+                } else {
+                    // an unnamed system is shown by a placeholder: not by a name that was handed
+                    // to this builder for something else
+                    let other = names.values().filter(|n| !n.is_empty()).map(|n| sanitise(n)).chain(ghosts.iter().map(|g| sanitise(g))).find(|n| n == tok);
+                    if let Some(o) = other {
+                        out.push((
+                            "unnamed_shown_under_a_name".into(),
+                            format!("{}: position (stage {}, group {}, pos {}) runs the unnamed system u{} but the text shows {:?}, a name given to something else", path, si, gi, pi, uid, o),
+                        ));
+                    }
                 }
             }
         }
@@ -221,7 +256,8 @@ fn case(rng: &mut Rng, pool: &Pool, rep: &mut Report, case_no: u64) {
     if failed_attempts != 0 {
         rep.metric("builders_with_caught_failed_registrations", 1);
     }
-    let b = match catch_unwind(AssertUnwindSafe(|| inst_capture(&plan, &ctx, pool, "top".into(), &mut texts, failed_attempts))) {
+    let fmt_seed = rng.next();
+    let b = match catch_unwind(AssertUnwindSafe(|| inst_capture(&plan, &ctx, pool, "top".into(), &mut texts, failed_attempts, fmt_seed))) {
         Ok(b) => b,
         Err(p) => {
             rep.inconclusive += 1;
@@ -242,7 +278,8 @@ fn case(rng: &mut Rng, pool: &Pool, rep: &mut Report, case_no: u64) {
     let mut problems: Vec<(String, String)> = Vec::new();
     let mut unnamed = 0usize;
     let mut sanitised = 0usize;
-    for (path, res, level_plan) in &texts {
+    for cap in &texts {
+        let (path, level_plan) = (&cap.path, &cap.plan);
         // locate the layout of this level
         let mut l: Option<&Layout> = Some(&layout);
         for seg in path.split('/').skip(1) {
@@ -250,18 +287,28 @@ fn case(rng: &mut Rng, pool: &Pool, rep: &mut Report, case_no: u64) {
             l = l.and_then(|x| x.batches.get(&uid)).and_then(|x| x.as_ref());
         }
         unnamed += level_plan.units().iter().filter(|u| u.name.is_empty()).count();
-        match res {
+        match &cap.texts {
             Err(p) => problems.push(("format_panics".into(), format!("{}: formatting the builder with {{:?}} panicked: {}", path, p))),
-            Ok((plain, pretty)) => {
+            Ok((plain, pretty, fancy, how)) => {
                 rep.metric("texts_checked", 1);
-                if plain != pretty {
-                    // both spellings must describe the same plan; compare both
-                    if let Some(l) = l {
-                        compare(&format!("{} ({{:#?}})", path), level_plan, l, pretty, &mut problems);
+                // every spelling must describe the same plan; compare those that differ
+                for (other, tag) in [(pretty, "{:#?}"), (fancy, *how)] {
+                    if other != plain {
+                        rep.metric("alternative_spellings_compared", 1);
+                        match l {
+                            Some(l) => {
+                                compare(&format!("{} ({})", path, tag), level_plan, &cap.ghosts, l, other, &mut problems);
+                            }
+                            None => {
+                                if parse_par_seq(other).ok() != parse_par_seq(plain).ok() {
+                                    problems.push(("spellings_differ".into(), format!("{}: the {} text lists other systems than the {{:?}} text", path, tag)));
+                                }
+                            }
+                        }
                     }
                 }
                 match l {
-                    Some(l) => sanitised += compare(path, level_plan, l, plain, &mut problems),
+                    Some(l) => sanitised += compare(path, level_plan, &cap.ghosts, l, plain, &mut problems),
                     None => {
                         // MultiDispatcher batch: the inner layout is not reachable; grammar and count only
                         match parse_par_seq(plain) {
@@ -290,7 +337,7 @@ fn case(rng: &mut Rng, pool: &Pool, rep: &mut Report, case_no: u64) {
                 case_no,
                 J::obj().set("plan", plan.to_json()).set("layout", layout.to_json()).set(
                     "text",
-                    texts.first().and_then(|t| t.1.as_ref().ok()).map(|t| t.0.clone()).unwrap_or_default(),
+                    texts.last().and_then(|t| t.texts.as_ref().ok()).map(|t| t.0.clone()).unwrap_or_default(),
                 ),
             );
         }
@@ -300,7 +347,7 @@ fn case(rng: &mut Rng, pool: &Pool, rep: &mut Report, case_no: u64) {
         rep.nontrivial(mix(plan.hash(), layout.hash()));
     }
     if rep.samples.len() < rep.max_samples && nontrivial && plan.n_systems_total() < 14 {
-        if let Some((_, Ok((t, _)), _)) = texts.last() {
+        if let Some(Captured { texts: Ok((t, _, _, _)), .. }) = texts.last() {
             rep.sample(J::obj().set("case", case_no).set("plan", plan.to_json()).set("layout", layout.to_json()).set("printed", t.as_str()));
         }
     }
